@@ -1,15 +1,16 @@
-(** C14, safety half: if every thread follows the discipline for one rank of the objects, then in every reachable
-    state of every schedule some unfinished thread can take its next step (no deadlock), and every schedule that
-    keeps choosing such threads completes. *)
-From Coq Require Import List NArith Bool Lia.
+(** C14, safety half: if every thread follows the discipline for one certificate (classes of objects, gates of
+    classes), then in every reachable state of every schedule some unfinished thread can take its next step (no
+    deadlock), and every schedule that keeps choosing such threads completes. *)
+From Coq Require Import List Arith NArith Bool Lia PeanoNat.
 From Axv Require Import Model.Locks.
 Import ListNotations.
 Open Scope N_scope.
 
 Section Locks.
-  Variable rank : N -> N.
+  Variable cls : N -> N.
+  Variable gate : N -> option N.
 
-  Lemma step_thread_ok t : thread_ok rank t = true -> thread_ok rank (step_thread t) = true.
+  Lemma step_thread_ok t : thread_ok cls gate t = true -> thread_ok cls gate (step_thread t) = true.
   Proof.
     unfold thread_ok, step_thread. destruct t as [p hd]. cbn [rest held].
     destruct p as [|[m o|o] r]; cbn [disciplined rest held]; intro H; [exact H| |];
@@ -23,7 +24,7 @@ Section Locks.
   Qed.
 
   Lemma step_at_ok fair s i :
-    Forall (fun t => thread_ok rank t = true) s -> Forall (fun t => thread_ok rank t = true) (step_at fair s i).
+    Forall (fun t => thread_ok cls gate t = true) s -> Forall (fun t => thread_ok cls gate t = true) (step_at fair s i).
   Proof.
     intro H. unfold step_at. destruct (nth_error s i) as [t|] eqn:E; [|exact H].
     destruct (enabled fair s t); [|exact H].
@@ -31,14 +32,123 @@ Section Locks.
     rewrite Forall_forall in H. apply H. apply (nth_error_In _ _ E).
   Qed.
 
-  Lemma run_ok fair sched : forall s,
-    Forall (fun t => thread_ok rank t = true) s -> Forall (fun t => thread_ok rank t = true) (run_schedule fair s sched).
+  (** ** mutual exclusion is an invariant of the lock semantics *)
+  Definition excl (s : sys) : Prop :=
+    forall i j ti tj o, nth_error s i = Some ti -> nth_error s j = Some tj -> i <> j ->
+                        holds_w ti o = true -> holds tj o = false.
+
+  Lemma nth_replace_same i t (s : sys) x : nth_error s i = Some x -> nth_error (replace_nth i t s) i = Some t.
   Proof.
-    induction sched as [|i sched IH]; intros s H; [exact H|]. cbn [run_schedule fold_left]. apply IH. apply step_at_ok. exact H.
+    revert i. induction s as [|y s IH]; intros i E; [destruct i; discriminate|].
+    destruct i; cbn [replace_nth nth_error] in *; [reflexivity|apply IH; exact E].
   Qed.
 
-  (** the object a thread is about to request *)
-  Definition target (t : thread) : option N := match rest t with Acq _ o :: _ => Some o | _ => None end.
+  Lemma nth_replace_other i j t (s : sys) : i <> j -> nth_error (replace_nth i t s) j = nth_error s j.
+  Proof.
+    revert i j. induction s as [|y s IH]; intros i j Hne; [destruct i; reflexivity|].
+    destruct i, j; cbn [replace_nth nth_error]; try reflexivity; [contradiction|apply IH; lia].
+  Qed.
+
+  Lemma holds_remove_first hd o o' : holds_l (remove_first o hd) o' = true -> holds_l hd o' = true.
+  Proof.
+    induction hd as [|h hd IH]; cbn [remove_first]; [auto|].
+    destruct (fst h =? o) eqn:E; cbn [holds_l existsb]; intro H.
+    - fold (holds_l hd o'). rewrite H. apply orb_true_r.
+    - fold (holds_l (remove_first o hd) o') in H. fold (holds_l hd o'). apply orb_true_iff in H.
+      destruct H as [H|H]; [rewrite H; reflexivity|rewrite (IH H); apply orb_true_r].
+  Qed.
+
+  Lemma holds_w_remove_first hd o o' : holds_w_l (remove_first o hd) o' = true -> holds_w_l hd o' = true.
+  Proof.
+    induction hd as [|h hd IH]; cbn [remove_first]; [auto|].
+    destruct (fst h =? o) eqn:E; cbn [holds_w_l existsb]; intro H.
+    - fold (holds_w_l hd o'). rewrite H. apply orb_true_r.
+    - fold (holds_w_l (remove_first o hd) o') in H. fold (holds_w_l hd o'). apply orb_true_iff in H.
+      destruct H as [H|H]; [rewrite H; reflexivity|rewrite (IH H); apply orb_true_r].
+  Qed.
+
+  Lemma holds_w_holds_l hd o : holds_w_l hd o = true -> holds_l hd o = true.
+  Proof.
+    unfold holds_w_l, holds_l. rewrite !existsb_exists. intros [h [Hin E]]. exists h. split; [exact Hin|].
+    apply andb_true_iff in E. tauto.
+  Qed.
+
+  Lemma holds_r_holds_l hd o : holds_r_l hd o = true -> holds_l hd o = true.
+  Proof.
+    unfold holds_r_l, holds_l. rewrite !existsb_exists. intros [h [Hin E]]. exists h. split; [exact Hin|].
+    apply andb_true_iff in E. tauto.
+  Qed.
+
+  Lemma not_exists_false {A} (f : A -> bool) l x : existsb f l = false -> In x l -> f x = false.
+  Proof.
+    intros H Hin. destruct (f x) eqn:E; [|reflexivity].
+    assert (existsb f l = true) by (apply existsb_exists; exists x; auto). congruence.
+  Qed.
+
+  Lemma step_at_excl s i : excl s -> excl (step_at false s i).
+  Proof.
+    intro Hex. unfold step_at. destruct (nth_error s i) as [t|] eqn:Et; [|exact Hex].
+    destruct (enabled false s t) eqn:En; [|exact Hex].
+    unfold excl. intros a b ta tb o Ha Hb Hab Hw.
+    (* what the stepping thread holds afterwards *)
+    assert (Hstep_w : forall o', holds_w (step_thread t) o' = true ->
+                                 holds_w t o' = true \/ (exists r, rest t = Acq MW o' :: r)).
+    { intros o' H. unfold holds_w, step_thread in *. destruct (rest t) as [|[m x|x] r] eqn:Er; cbn [held] in H.
+      - left. exact H.
+      - cbn [holds_w_l existsb fst snd] in H. apply orb_true_iff in H. destruct H as [H|H]; [|left; exact H].
+        apply andb_true_iff in H. destruct H as [E W]. apply N.eqb_eq in E. subst x. destruct m; [discriminate|].
+        right. exists r. reflexivity.
+      - left. apply (holds_w_remove_first _ _ _ H). }
+    assert (Hstep_h : forall o', holds (step_thread t) o' = true ->
+                                 holds t o' = true \/ (exists m r, rest t = Acq m o' :: r)).
+    { intros o' H. unfold holds, step_thread in *. destruct (rest t) as [|[m x|x] r] eqn:Er; cbn [held] in H.
+      - left. exact H.
+      - cbn [holds_l existsb fst] in H. apply orb_true_iff in H. destruct H as [H|H]; [|left; exact H].
+        apply N.eqb_eq in H. subst x. right. exists m, r. reflexivity.
+      - left. apply (holds_remove_first _ _ _ H). }
+    destruct (Nat.eq_dec a i) as [Eai|Nai]; destruct (Nat.eq_dec b i) as [Ebi|Nbi]; try lia.
+    - (* the stepping thread holds o exclusively *)
+      subst a. rewrite (nth_replace_same i _ s t Et) in Ha. injection Ha as <-.
+      rewrite (nth_replace_other i b _ s) in Hb by lia.
+      destruct (Hstep_w o Hw) as [H|[r Hr]].
+      + apply (Hex i b t tb o Et Hb Hab H).
+      + unfold enabled in En. rewrite Hr in En. apply negb_true_iff in En.
+        apply (not_exists_false _ _ tb En (nth_error_In _ _ Hb)).
+    - (* another thread holds o exclusively; the stepping thread must not hold it *)
+      subst b. rewrite (nth_replace_same i _ s t Et) in Hb. injection Hb as <-.
+      rewrite (nth_replace_other i a _ s) in Ha by lia.
+      destruct (holds (step_thread t) o) eqn:Hh; [exfalso|reflexivity].
+      destruct (Hstep_h o Hh) as [H|[m [r Hr]]].
+      + rewrite (Hex a i ta t o Ha Et Hab Hw) in H. discriminate.
+      + unfold enabled in En. rewrite Hr in En. destruct m.
+        * apply orb_true_iff in En. destruct En as [En|En].
+          -- apply holds_r_holds_l in En. fold (holds t o) in En.
+             rewrite (Hex a i ta t o Ha Et Hab Hw) in En. discriminate.
+          -- apply negb_true_iff in En.
+             rewrite (not_exists_false _ _ ta En (nth_error_In _ _ Ha)) in Hw. discriminate.
+        * apply negb_true_iff in En.
+          pose proof (not_exists_false _ _ ta En (nth_error_In _ _ Ha)) as Hn. cbn beta in Hn.
+          apply holds_w_holds_l in Hw. fold (holds ta o) in Hw. congruence.
+    - rewrite (nth_replace_other i a _ s) in Ha by lia. rewrite (nth_replace_other i b _ s) in Hb by lia.
+      apply (Hex a b ta tb o Ha Hb Hab Hw).
+  Qed.
+
+  Lemma excl_start progs : excl (map start progs).
+  Proof.
+    intros i j ti tj o Hi Hj _ Hw. apply nth_error_In in Hi. apply in_map_iff in Hi. destruct Hi as [p [E _]].
+    subst ti. discriminate Hw.
+  Qed.
+
+  Lemma run_inv sched : forall s,
+    Forall (fun t => thread_ok cls gate t = true) s -> excl s ->
+    Forall (fun t => thread_ok cls gate t = true) (run_schedule false s sched) /\ excl (run_schedule false s sched).
+  Proof.
+    induction sched as [|i sched IH]; intros s H1 H2; [split; assumption|].
+    cbn [run_schedule fold_left]. apply IH; [apply step_at_ok; exact H1|apply step_at_excl; exact H2].
+  Qed.
+
+  (** ** progress *)
+  Definition target (t : thread) : N := match rest t with Acq _ o :: _ => o | _ => 0 end.
 
   Lemma exists_max (l : list thread) (key : thread -> N) :
     l <> [] -> exists t, In t l /\ forall u, In u l -> key u <= key t.
@@ -52,113 +162,128 @@ Section Locks.
       + exists x. split; [left; reflexivity|]. intros u [E|Hu]; [subst; lia|specialize (Hmax u Hu); lia].
   Qed.
 
-  (** a thread that holds [o] under the discipline and is not finished is about to request something of larger
-      rank, or to re-request a shared lock it holds, or to release *)
-  Lemma holder_next t o :
-    thread_ok rank t = true -> holds t o = true ->
-    match rest t with
-    | [] => False
-    | Rel _ :: _ => True
-    | Acq m o' :: _ => rank o < rank o' \/ (m = MR /\ holds_r t o' = true)
-    end.
+  (** a disabled request is blocked by a holder of its object *)
+  Lemma blocked_by s t m o r :
+    rest t = Acq m o :: r -> enabled false s t = false ->
+    exists u, In u s /\ holds u o = true /\ (m = MR -> holds_r t o = false).
   Proof.
-    unfold thread_ok, holds, holds_r. destruct t as [p hd]. cbn [rest held]. intros Hok Hh.
-    destruct p as [|[m o'|o'] r]; cbn [disciplined] in Hok.
-    - destruct hd; [discriminate Hh|discriminate Hok].
-    - apply andb_true_iff in Hok. destruct Hok as [Hok _]. apply orb_true_iff in Hok. destruct Hok as [Hre|Hall].
-      + right. destruct m; [split; [reflexivity|exact Hre]|discriminate].
-      + left. rewrite forallb_forall in Hall. apply existsb_exists in Hh. destruct Hh as [h [Hin E]].
-        apply N.eqb_eq in E. specialize (Hall h Hin). apply N.ltb_lt in Hall. rewrite E in Hall. exact Hall.
-    - exact I.
+    intros Er Hd. unfold enabled in Hd. rewrite Er in Hd. destruct m.
+    - apply orb_false_iff in Hd. destruct Hd as [Hd1 Hd2]. apply negb_false_iff in Hd2.
+      apply existsb_exists in Hd2. destruct Hd2 as [u [Hu Hw]]. exists u. split; [exact Hu|].
+      split; [apply holds_w_holds_l; exact Hw|intros _; exact Hd1].
+    - apply negb_false_iff in Hd. apply existsb_exists in Hd. destruct Hd as [u [Hu Hh]]. exists u.
+      split; [exact Hu|]. split; [exact Hh|discriminate].
   Qed.
 
-  Lemma holds_w_holds t o : holds_w t o = true -> holds t o = true.
+  (** what the discipline says about a lock [o] held by a thread whose next request is not a re-entrant read *)
+  Lemma held_vs_target t m o' r o :
+    thread_ok cls gate t = true -> rest t = Acq m o' :: r -> (m = MR -> holds_r t o' = false) -> holds t o = true ->
+    o <> o' /\ (cls o < cls o' \/ (cls o = cls o' /\ exists g, gate (cls o') = Some g /\ holds_w t g = true)).
   Proof.
-    unfold holds_w, holds. rewrite !existsb_exists. intros [h [Hin E]]. exists h. split; [exact Hin|].
-    apply andb_true_iff in E. tauto.
+    unfold thread_ok, holds, holds_r, holds_w. destruct t as [p hd]. cbn [rest held]. intros Hok Er Hnr Hh. subst p.
+    cbn [disciplined] in Hok. apply andb_true_iff in Hok. destruct Hok as [Hok _]. unfold acq_ok in Hok.
+    apply orb_true_iff in Hok. destruct Hok as [Hre|Hall].
+    - destruct m; [rewrite (Hnr eq_refl) in Hre|]; discriminate.
+    - rewrite forallb_forall in Hall. unfold holds_l in Hh. apply existsb_exists in Hh. destruct Hh as [h [Hin E]].
+      apply N.eqb_eq in E. specialize (Hall h Hin). rewrite E in Hall. apply andb_true_iff in Hall. destruct Hall as [Hne Hc].
+      apply negb_true_iff in Hne. apply N.eqb_neq in Hne. split; [exact Hne|].
+      apply orb_true_iff in Hc. destruct Hc as [Hc|Hc]; [left; apply N.ltb_lt; exact Hc|right].
+      apply andb_true_iff in Hc. destruct Hc as [Hc Hg]. apply N.eqb_eq in Hc. split; [exact Hc|].
+      destruct (gate (cls o')) as [g|]; [|discriminate]. exists g. split; [reflexivity|exact Hg].
   Qed.
 
-  (** ** progress, recursive-read semantics *)
+  Lemma finished_holds_nothing t o : thread_ok cls gate t = true -> rest t = [] -> holds t o = false.
+  Proof.
+    unfold thread_ok, holds. destruct t as [p hd]. cbn [rest held]. intros Hok E. subst p. cbn [disciplined] in Hok.
+    destruct hd; [reflexivity|discriminate].
+  Qed.
+
   Theorem progress (s : sys) :
-    Forall (fun t => thread_ok rank t = true) s -> existsb unfinished s = true -> existsb (enabled false s) s = true.
+    Forall (fun t => thread_ok cls gate t = true) s -> excl s ->
+    existsb unfinished s = true -> existsb (enabled false s) s = true.
   Proof.
-    intros Hok Hun. rewrite Forall_forall in Hok.
+    intros Hok Hex Hun. rewrite Forall_forall in Hok.
     destruct (existsb (enabled false s) s) eqn:Hen; [reflexivity|exfalso].
-    assert (Hdis : forall t, In t s -> enabled false s t = false).
-    { intros t Ht. destruct (enabled false s t) eqn:E; [|reflexivity].
-      assert (existsb (enabled false s) s = true) by (apply existsb_exists; exists t; auto). congruence. }
-    (* the unfinished threads: all about to acquire *)
+    assert (Hdis : forall t, In t s -> enabled false s t = false) by (intros t Ht; apply (not_exists_false _ _ t Hen Ht)).
     set (U := filter unfinished s).
     assert (HU : U <> []).
     { apply existsb_exists in Hun. destruct Hun as [t [Ht Hu]]. intro E.
       assert (In t U) by (apply filter_In; auto). rewrite E in H. destruct H. }
-    destruct (exists_max U (fun t => match target t with Some o => rank o | None => 0 end) HU) as [t [Ht Hmax]].
+    destruct (exists_max U (fun t => cls (target t)) HU) as [t [Ht Hmax]].
     apply filter_In in Ht. destruct Ht as [Hts Htu].
-    pose proof (Hdis t Hts) as Hd. unfold enabled in Hd. unfold unfinished in Htu.
-    destruct (rest t) as [|[m l|l] r] eqn:Er; [discriminate Htu| |discriminate Hd].
-    (* some thread u holds l *)
-    assert (Hholder : exists u, In u s /\ holds u l = true /\ (m = MR -> holds_r t l = false)).
-    { destruct m.
-      - apply orb_false_iff in Hd. destruct Hd as [Hd1 Hd2]. apply negb_false_iff in Hd2.
-        apply existsb_exists in Hd2. destruct Hd2 as [u [Hu Hw]]. exists u. split; [exact Hu|].
-        split; [apply holds_w_holds; exact Hw|intros _; exact Hd1].
-      - apply negb_false_iff in Hd. apply existsb_exists in Hd. destruct Hd as [u [Hu Hh]]. exists u.
-        split; [exact Hu|]. split; [exact Hh|discriminate]. }
-    destruct Hholder as [u [Hus [Hul Hnr]]].
-    pose proof (holder_next u l (Hok u Hus) Hul) as Hnext.
-    pose proof (Hdis u Hus) as Hdu. unfold enabled in Hdu.
-    destruct (rest u) as [|[m' l'|l'] r'] eqn:Eru; [exact Hnext| |discriminate Hdu].
-    destruct Hnext as [Hlt|[Em Hre]].
-    - (* u is about to request something above l: contradicts the choice of t *)
-      assert (Huu : In u U) by (apply filter_In; split; [exact Hus|unfold unfinished; rewrite Eru; reflexivity]).
-      specialize (Hmax u Huu). unfold target in Hmax. rewrite Er, Eru in Hmax. lia.
-    - (* u re-requests a shared lock it holds: that is enabled *)
-      subst m'. rewrite Hre in Hdu. discriminate Hdu.
+    (* every unfinished thread is about to acquire *)
+    assert (Hacq : forall x, In x s -> unfinished x = true -> exists m o r, rest x = Acq m o :: r).
+    { intros x Hx Hxu. pose proof (Hdis x Hx) as Hd. unfold enabled in Hd. unfold unfinished in Hxu.
+      destruct (rest x) as [|[m o|o] r]; [discriminate|eauto|discriminate]. }
+    assert (Hunf : forall x o, In x s -> holds x o = true -> unfinished x = true).
+    { intros x o Hx Hh. unfold unfinished. destruct (rest x) eqn:E; [|reflexivity].
+      rewrite (finished_holds_nothing x o (Hok x Hx) E) in Hh. discriminate. }
+    destruct (Hacq t Hts Htu) as [m [l [r Er]]].
+    destruct (blocked_by s t m l r Er (Hdis t Hts)) as [u [Hus [Hul _]]].
+    pose proof (Hunf u l Hus Hul) as Huu.
+    destruct (Hacq u Hus Huu) as [m' [l' [r' Eru]]].
+    destruct (blocked_by s u m' l' r' Eru (Hdis u Hus)) as [v [Hvs [Hvl' Hnr']]].
+    destruct (held_vs_target u m' l' r' l (Hok u Hus) Eru Hnr' Hul) as [Hne [Hlt|[Hc [g [Hg Hug]]]]].
+    { assert (In u U) by (apply filter_In; auto). specialize (Hmax u H). unfold target in Hmax. rewrite Er, Eru in Hmax. lia. }
+    (* u is inside a gated region; v holds what u wants *)
+    pose proof (Hunf v l' Hvs Hvl') as Hvu.
+    destruct (Hacq v Hvs Hvu) as [m'' [l'' [r'' Erv]]].
+    destruct (blocked_by s v m'' l'' r'' Erv (Hdis v Hvs)) as [_ [_ [_ Hnr'']]].
+    destruct (held_vs_target v m'' l'' r'' l' (Hok v Hvs) Erv Hnr'' Hvl') as [Hne' [Hlt|[Hc' [g' [Hg' Hvg]]]]].
+    { assert (In v U) by (apply filter_In; auto). specialize (Hmax v H). unfold target in Hmax. rewrite Er, Erv in Hmax. lia. }
+    (* both hold the gate of the class exclusively *)
+    rewrite <- Hc' in Hg'. rewrite Hg in Hg'. injection Hg' as <-.
+    assert (Hnuv : u <> v).
+    { intro E. subst v. destruct (held_vs_target u m' l' r' l' (Hok u Hus) Eru Hnr' Hvl') as [H _]. congruence. }
+    destruct (In_nth_error _ _ Hus) as [iu Eiu]. destruct (In_nth_error _ _ Hvs) as [iv Eiv].
+    assert (iu <> iv) by (intro E; subst iv; congruence).
+    pose proof (Hex iu iv u v g Eiu Eiv H Hug) as Hn.
+    apply holds_w_holds_l in Hvg. fold (holds v g) in Hvg. congruence.
   Qed.
 
-  (** no reachable state of any schedule is deadlocked *)
   Theorem no_deadlock (progs : list (list act)) (sched : list nat) :
-    forallb (fun p => disciplined rank [] p) progs = true ->
+    forallb (fun p => disciplined cls gate [] p) progs = true ->
     stuck false (run_schedule false (map start progs) sched) = false.
   Proof.
     intro H. unfold stuck.
-    assert (Hok : Forall (fun t => thread_ok rank t = true) (run_schedule false (map start progs) sched)).
-    { apply run_ok. apply Forall_forall. intros t Ht. apply in_map_iff in Ht. destruct Ht as [p [E Hp]]. subst t.
+    destruct (run_inv sched (map start progs)) as [Hok Hex].
+    { apply Forall_forall. intros t Ht. apply in_map_iff in Ht. destruct Ht as [p [E Hp]]. subst t.
       rewrite forallb_forall in H. apply (H p Hp). }
+    { apply excl_start. }
     destruct (existsb unfinished (run_schedule false (map start progs) sched)) eqn:E; [|reflexivity].
-    rewrite (progress _ Hok E). reflexivity.
-  Qed.
-
-  (** ** every schedule that always picks a thread that can move completes: each step consumes one action *)
-  Definition remaining (s : sys) : nat := fold_right (fun t n => (length (rest t) + n)%nat) O s.
-
-  Lemma remaining_replace i t s x :
-    nth_error s i = Some x -> (remaining (replace_nth i t s) + length (rest x) = remaining s + length (rest t))%nat.
-  Proof.
-    revert i. induction s as [|y s IH]; intros i E; [destruct i; discriminate|].
-    destruct i; cbn [nth_error] in E.
-    - injection E as ->. cbn [replace_nth remaining fold_right]. lia.
-    - cbn [replace_nth remaining fold_right]. fold (remaining (replace_nth i t s)) (remaining s).
-      specialize (IH i E). lia.
-  Qed.
-
-  Theorem enabled_step_consumes fair s i t :
-    nth_error s i = Some t -> enabled fair s t = true -> (remaining (step_at fair s i) + 1 = remaining s)%nat.
-  Proof.
-    intros E En. unfold step_at. rewrite E, En.
-    pose proof (remaining_replace i (step_thread t) s t E) as H.
-    assert (Hl : (length (rest (step_thread t)) + 1 = length (rest t))%nat).
-    { unfold enabled in En. unfold step_thread. destruct (rest t) as [|[m o|o] r]; [discriminate| |]; cbn [rest length]; lia. }
-    lia.
+    rewrite (progress _ Hok Hex E). reflexivity.
   Qed.
 End Locks.
+
+(** ** every schedule that always picks a thread that can move completes: each step consumes one action *)
+Definition remaining (s : sys) : nat := fold_right (fun t n => (length (rest t) + n)%nat) O s.
+
+Lemma remaining_replace i t s x :
+  nth_error s i = Some x -> (remaining (replace_nth i t s) + length (rest x) = remaining s + length (rest t))%nat.
+Proof.
+  revert i. induction s as [|y s IH]; intros i E; [destruct i; discriminate|].
+  destruct i; cbn [nth_error] in E.
+  - injection E as ->. cbn [replace_nth remaining fold_right]. lia.
+  - cbn [replace_nth remaining fold_right]. fold (remaining (replace_nth i t s)) (remaining s).
+    specialize (IH i E). lia.
+Qed.
+
+Theorem enabled_step_consumes fair s i t :
+  nth_error s i = Some t -> enabled fair s t = true -> (remaining (step_at fair s i) + 1 = remaining s)%nat.
+Proof.
+  intros E En. unfold step_at. rewrite E, En.
+  pose proof (remaining_replace i (step_thread t) s t E) as H.
+  assert (Hl : (length (rest (step_thread t)) + 1 = length (rest t))%nat).
+  { unfold enabled in En. unfold step_thread. destruct (rest t) as [|[m o|o] r]; [discriminate| |]; cbn [rest length]; lia. }
+  lia.
+Qed.
 
 (** ** the fair (writer-preferring) read deadlocks on a re-entrant read: why fix 82c0144 was needed *)
 Definition reentrant_reader : list act := [Acq MR 5; Acq MR 5; Rel 5; Rel 5].
 Definition writer : list act := [Acq MW 0; Rel 0; Acq MW 5; Rel 5].
 
-Lemma reentrant_disciplined : forall rank, forallb (fun p => disciplined rank [] p) [reentrant_reader; writer] = true.
-Proof. intro rank. reflexivity. Qed.
+Lemma reentrant_disciplined : forall cls gate, forallb (fun p => disciplined cls gate [] p) [reentrant_reader; writer] = true.
+Proof. intros cls gate. reflexivity. Qed.
 
 Lemma fair_read_deadlocks :
   stuck true (run_schedule true (map start [reentrant_reader; writer]) [0; 1; 1]%nat) = true.
@@ -167,3 +292,24 @@ Proof. vm_compute. reflexivity. Qed.
 Lemma recursive_read_completes :
   existsb unfinished (run_schedule false (map start [reentrant_reader; writer]) [0; 1; 1; 0; 0; 0; 1; 1]%nat) = false.
 Proof. vm_compute. reflexivity. Qed.
+
+(** ** why two locks of one region must not be held together without the gate: a reader that couples latches top-down
+    inside a tree deadlocks with a writer that holds the root exclusively and goes bottom-up *)
+Definition coupling_reader : list act := [Acq MR 10; Acq MR 11; Rel 10; Rel 11].
+Definition bottom_up_writer : list act := [Acq MW 9; Acq MW 11; Acq MW 10; Rel 10; Rel 11; Rel 9].
+
+Lemma coupling_deadlocks :
+  stuck false (run_schedule false (map start [coupling_reader; bottom_up_writer]) [0; 1; 1]%nat) = true.
+Proof. vm_compute. reflexivity. Qed.
+
+Lemma coupling_not_disciplined :
+  forall cls gate, forallb (fun p => disciplined cls gate [] p) [coupling_reader; bottom_up_writer] = false.
+Proof.
+  intros cls gate. cbn [forallb disciplined acq_ok holds_r_l holds_w_l holds_l existsb forallb fst snd is_w negb andb orb remove_first].
+  cbn. destruct (cls 10 <? cls 11) eqn:A, (cls 11 <? cls 10) eqn:B, (cls 10 =? cls 11) eqn:C, (cls 11 =? cls 10) eqn:D;
+    try reflexivity; cbn; rewrite ?andb_false_r, ?andb_false_l; try reflexivity;
+    try (apply N.ltb_lt in A; apply N.ltb_lt in B; lia);
+    try (apply N.ltb_lt in A; apply N.eqb_eq in D; lia);
+    try (apply N.ltb_lt in B; apply N.eqb_eq in C; lia);
+    destruct (gate (cls 11)); destruct (gate (cls 10)); cbn; rewrite ?andb_false_r; reflexivity.
+Qed.
